@@ -194,13 +194,13 @@ func isIntType(t types.Type) bool {
 
 // merkleRoles describes the Merkle-recomputation gadget and its step.
 type merkleRoles struct {
-	G        *gadgetInfo
-	SeqField string // leaf followed by siblings
-	DirField string // direction bits
-	Step     *gadgetInfo
-	StepTerm *tf.Term
+	G             *gadgetInfo
+	SeqField      string // leaf followed by siblings
+	DirField      string // direction bits
+	Step          *gadgetInfo
+	StepTerm      *tf.Term
 	Acc, Dir, Sib string // step-gadget fields
-	Hash2    *tf.Term
+	Hash2         *tf.Term
 	// DirZeroAccFirst: with direction bit 0 the running node is the hash's first operand
 	DirZeroAccFirst bool
 	dirBoolInStep   bool
